@@ -5,6 +5,7 @@ CONSTANTS
   MaxSelect = 2
   GcBefore = 3
   Concurrent = FALSE
+  WithCheckpoint = FALSE
   OrderedPush = TRUE
   AsBuilt = {}
 VIEW View
